@@ -6,6 +6,7 @@ import (
 	"fmt"
 	"os"
 	"runtime"
+	"sort"
 	"strconv"
 	"strings"
 	"time"
@@ -267,14 +268,39 @@ func (co *coord) runBox(bi int, deadline time.Time) *boxStats {
 			}
 			return emit(mkTasks(frontier, 0, batch))
 		}
+		// Deterministic tree: a state reached by several transitions of one level keeps the
+		// smallest (rank of parent, event); ranks are assigned when the level is complete.
+		// The reported counterexample therefore does not depend on worker timing.
+		rank := map[uint32]uint32{0: 0}
+		cur := map[uint64]uint32{}
+		lessEv := func(a, b Event) bool {
+			if a.K != b.K {
+				return a.K < b.K
+			}
+			if a.N != b.N {
+				return a.N < b.N
+			}
+			return a.A < b.A
+		}
+		better := func(p1 uint32, e1 Event, p2 uint32, e2 Event) bool {
+			if rank[p1] != rank[p2] {
+				return rank[p1] < rank[p2]
+			}
+			return lessEv(e1, e2)
+		}
 		co.pool.Map(startLevel(), func(_ []byte, out []byte, crash *pool.Crash) [][]byte {
 			pending--
 			handle(out, crash, 0, func(parent uint32, rc *rec, nd uint8) uint32 {
 				if _, ok := seen[rc.hash]; ok {
+					if id, here := cur[rc.hash]; here && better(parent, rc.ev, tree[id].parent, tree[id].ev) {
+						tree[id].parent, tree[id].ev = parent, rc.ev
+					}
 					return dead
 				}
 				seen[rc.hash] = 0
-				return addState(parent, rc)
+				id := addState(parent, rc)
+				cur[rc.hash] = id
+				return id
 			}, func(id uint32, rc *rec, nd uint8) { next = append(next, id) })
 			if aborted || timedOut || pending > 0 {
 				return nil
@@ -286,6 +312,16 @@ func (co *coord) runBox(bi int, deadline time.Time) *boxStats {
 			level++
 			st.CompletedDepth = level
 			st.StatesPerLevel = append(st.StatesPerLevel, len(next))
+			sort.Slice(next, func(i, j int) bool {
+				a, b := next[i], next[j]
+				return better(tree[a].parent, tree[a].ev, tree[b].parent, tree[b].ev)
+			})
+			nrank := make(map[uint32]uint32, len(next))
+			for i, id := range next {
+				nrank[id] = uint32(i)
+			}
+			rank = nrank
+			cur = map[uint64]uint32{}
 			frontier, next = next, nil
 			if len(frontier) == 0 {
 				st.Complete = true // the whole reachable space inside the budgets is closed
